@@ -1317,7 +1317,15 @@ fn expected_dump(cells: &BTreeMap<(u32, u32), String>) -> String {
     let r1 = cells.keys().map(|k| k.0).max().unwrap();
     let c0 = cells.keys().map(|k| k.1).min().unwrap();
     let c1 = cells.keys().map(|k| k.1).max().unwrap();
-    dump_range(Some((r0, c0)), Some((r1, c1)), &|r, c| cells.get(&(r, c)).cloned().unwrap_or_default())
+    // same text as `dump_range` over the rectangle, without visiting the (possibly astronomically many) empty
+    // positions: the map iterates in row-major order
+    let mut out = format!("{r0},{c0}..{r1},{c1}");
+    for ((r, c), t) in cells {
+        if !t.is_empty() {
+            out.push_str(&format!(" [{r},{c}]={t}"));
+        }
+    }
+    out
 }
 
 /// `history`: what is done with the workbook object before the formulas are read. The formulas of a sheet do not
@@ -1628,6 +1636,19 @@ fn run_file_case(fc: &FileCase, drv: &mut Driver, rep: &mut Report) {
                     let inp2 = format!("{input} @badpart {i} {}", hex(&bad_part));
                     rep.count("file_xlsb_malformed_part");
                     let m = model_sheet_formulas(&bad_part, &fc.ctx, drv);
+                    // a damaged coordinate can make the bounding box astronomically large: `from_sparse` then asks for
+                    // rows x cols cells and the process aborts (dense Range, ledger D37, C06 known finding) — such a
+                    // part is not handed to the implementation
+                    let area = m.split(' ').next().and_then(|h| {
+                        let (a, b) = h.split_once("..")?;
+                        let (r0, c0) = a.split_once(',')?;
+                        let (r1, c1) = b.split_once(',')?;
+                        Some((r1.parse::<u64>().ok()? - r0.parse::<u64>().ok()? + 1) * (c1.parse::<u64>().ok()? - c0.parse::<u64>().ok()? + 1))
+                    });
+                    if area.map_or(false, |a| a > (1 << 21)) {
+                        rep.count("file_xlsb_malformed_part_skipped_huge_bbox(D37)");
+                        return;
+                    }
                     let imp = match guarded(|| Xlsb::new(Cursor::new(b2.to_bytes()))) {
                         Ok(Ok(mut wb2)) => canon_err_dump(&guarded(|| impl_dump0(&mut wb2, &fc.ctx.sheets[i])).unwrap_or_else(|p| format!("panic:{p}"))),
                         Ok(Err(e)) => format!("open-err:{e:?}"),
@@ -2269,7 +2290,15 @@ fn main() {
         let nf = args.count(400, 40_000) / if args.n.is_some() { 10 } else { 1 };
         for i in 0..nf.max(1) {
             let fc = gen_file_case(&mut rng, i % 3 == 2);
+            let t0 = std::time::Instant::now();
+            if let Ok(p) = std::env::var("VERIF_TRACE_CASES") {
+                let _ = std::fs::write(p, fc.wire());
+            }
             run_file_case(&fc, &mut drv, &mut rep);
+            if t0.elapsed().as_secs() >= 5 {
+                rep.count("file_case_slower_than_5s");
+                eprintln!("slow file case ({} s): {}", t0.elapsed().as_secs(), fc.wire());
+            }
         }
     }
     if args.replay.is_none() {
